@@ -364,7 +364,8 @@ void body(ctx_t& c)
     o.max_classes  = 6;
     o.target_kind  = r.coin(0.6) ? 1 : 4;
     const auto schema = vf::random_schema(r, o);
-    p.source = std::make_unique<vf::sim_datasource_t>(schema, r.next(), r.coin(0.35) ? 0.0 : r.real(0.05, 0.5), true, static_cast<int>(r.range(0, 2)));
+    p.source = std::make_unique<vf::sim_datasource_t>(schema, r.next(), r.coin(0.35) ? 0.0 : r.real(0.05, 0.5), true,
+                                                      static_cast<int>(r.range(0, 2)) + (r.coin(0.3) ? 10 : 0));
     p.source->load();
     const auto total = p.source->samples();
     {
